@@ -1,6 +1,7 @@
 import PrysmVerif.Generated.C06
 import PrysmVerif.Lemmas.C06Analysis
 import PrysmVerif.Lemmas.C06Model
+import PrysmVerif.Lemmas.C06Resample
 import Mathlib.Data.Complex.Basic
 import Mathlib.Tactic.IntervalCases
 import Mathlib.Analysis.SpecialFunctions.Trigonometric.Deriv
@@ -657,6 +658,136 @@ theorem driver_pipelines_agree {K : Type} [Num K] (cosf sinf sqrtf : K → K) (t
    babinetBackFullT_agrees cosf sinf sqrtf twoPi p0 p1 M0 M1 dx efl wl fdx fpm lyot y i j hi hj,
    fixedBackT_agrees cosf sinf sqrtf twoPi sx p0 p1 M0 M1 dx efl wl fdx sx sy mask mask (fun _ _ _ _ => rfl) i j hi hj⟩
 
+/-! ## session 3: `fourier_resample_backprop`, masked cost functions -/
+
+/-- translated: the operation chain of `fourier_resample_backprop` is the mirrored chain of adjoints of `fourier_resample`
+(the matrix-DFT / FFT / shift part; each side then takes the real part and applies one scale factor), and both ask the
+matrix-DFT executor for the same transform geometry (same zoom, `(int(m·zy), int(n·zx))` ↔ `in_shape`, same prologue) -/
+theorem gen_resample_chain :
+    (resampleBackChain.filter fun s => s ≠ "real" ∧ s ≠ "scale")
+        = ((resampleFwdChain.filter fun s => s ≠ "real" ∧ s ≠ "scale").map Model.C06.resampleAdjointOf).reverse
+      ∧ resampleFwdChain.count "real" = 1 ∧ resampleBackChain.count "real" = 1
+      ∧ resampleFwdChain.count "scale" = 1 ∧ resampleBackChain.count "scale" = 1
+      ∧ resampleSameGeometry = true := by decide
+
+/-- translated: every circular shift of the backprop undoes the mirrored shift of the forward, for every axis length
+(`fftshift` and `ifftshift` differ for odd lengths: swapping them on either side breaks this) -/
+theorem gen_resample_shifts (n : Nat) :
+    resampleBackPre n + resampleFwdPost n = n ∧ resampleBackPost n + resampleFwdPre n = n := by
+  constructor <;> simp only [resampleBackPre, resampleFwdPost, resampleBackPost, resampleFwdPre] <;> omega
+
+/-- translated: the scale factor of the backprop, times the `1/(m·n)` that turns `ifft2` into `fft2ᴴ`, is the scale factor of the
+forward -- for every zoom and size, given only `sqrt(x)² = x` at the one argument the source takes the root of -/
+theorem gen_resample_scale {K : Type} [Field K] (sqrtf : K → K) (zy zx m n mm nn : K) (hm : m ≠ 0) (hn : n ≠ 0)
+    (hsq : sqrtf (m * n) * sqrtf (m * n) = m * n) :
+    resampleBackScale sqrtf zy zx m n mm nn * (1 / m) * (1 / n) = resampleFwdScale sqrtf zy zx m n mm nn := by
+  have hs : sqrtf (m * n) ≠ 0 := fun h => by rw [h, mul_zero] at hsq; exact mul_ne_zero hm hn hsq.symm
+  simp only [resampleBackScale, resampleFwdScale]
+  field_simp
+  first
+    | linear_combination (zy * zx) * hsq
+    | linear_combination -(zy * zx) * hsq
+    | (rw [← hsq]; ring)
+
+/-- `fourier_resample_backprop` is the adjoint of `fourier_resample` (as complex-linear operators; `real_part_adjoint` transfers
+it to the real parts both routines return): for every input size `m × n`, output size `M × N`, zoom, matrix-DFT bases `Eo`, `Ei`
+(whatever Q / shift / normalisation the executor builds), any FFT matrices with `ifft = (1/size)·fftᴴ`, with the roll amounts and
+the two scale factors TRANSLATED from the source -/
+theorem fourier_resample_adjoint {C : Type} [Field C] (conj : C →+* C) (hc : ∀ a, conj (conj a) = a)
+    (m n M N : Nat) (hm : (m : C) ≠ 0) (hn : (n : C) ≠ 0) (F1 F2 G1 G2 Eo Ei : Model.C06.Mat C)
+    (h1 : ∀ i j, G1 i j = (1 / (m : C)) * conj (F1 j i)) (h2 : ∀ i j, G2 i j = (1 / (n : C)) * conj (F2 j i))
+    (sqrtf : C → C) (zy zx : C) (hzy : conj zy = zy) (hzx : conj zx = zx)
+    (hsq : sqrtf ((m : C) * n) * sqrtf ((m : C) * n) = (m : C) * n) (hsc : conj (sqrtf ((m : C) * n)) = sqrtf ((m : C) * n))
+    (f y : Model.C06.Mat C) :
+    Model.C06.ip2 conj M N y
+        (Model.C06.resampleFwd m n M N (resampleFwdPre m) (resampleFwdPre n) (resampleFwdPost m) (resampleFwdPost n)
+          F1 F2 Eo Ei (resampleFwdScale sqrtf zy zx (m : C) n M N) f)
+      = Model.C06.ip2 conj m n
+        (Model.C06.resampleBack conj m n M N (resampleBackPre m) (resampleBackPre n) (resampleBackPost m) (resampleBackPost n)
+          G1 G2 Eo Ei (resampleBackScale sqrtf zy zx (m : C) n M N) y) f := by
+  have hcm : conj (1 / (m : C)) = 1 / (m : C) := by simp
+  have hcn : conj (1 / (n : C)) = 1 / (n : C) := by simp
+  refine resample_adjoint' conj hc m n M N _ _ _ _ _ _ _ _ (gen_resample_shifts m).1 (gen_resample_shifts n).1
+    (gen_resample_shifts m).2 (gen_resample_shifts n).2 F1 F2 G1 G2 Eo Ei (1 / (m : C)) (1 / (n : C)) _ _ h1 h2 hcm hcn ?_
+    (gen_resample_scale sqrtf zy zx (m : C) n M N hm hn hsq) f y
+  simp only [resampleBackScale, map_mul, map_div₀, map_add, map_sub, map_one, map_natCast, hzy, hzx, hsc]
+
+/-- the circular shifts on their own: rolling both axes by `(sy, sx)` and by `(m − sy, n − sx)` are adjoint (inverse
+permutations), every size -- `fftshift` / `ifftshift` are the cases `s = n / 2`, `s = n − n / 2` -/
+theorem roll_adjoint {C : Type} [Field C] (conj : C →+* C) (m n sy sx : Nat) (hy : sy ≤ m) (hx : sx ≤ n) (u v : Model.C06.Mat C) :
+    Model.C06.ip2 conj m n u (Model.C06.roll2 m n sy sx v)
+      = Model.C06.ip2 conj m n (Model.C06.roll2 m n (m - sy) (n - sx) u) v :=
+  ip2_roll conj m n sy sx hy hx u v
+
+/-- the tabulated `fourier_resample_backprop` pipeline the driver runs equals the pure model inside the extents -/
+theorem resample_driver_agrees {C : Type} [Num C] (conj : C → C) (m n M N preY preX postY postX : Nat) (hpy : preY ≤ m) (hpx : preX ≤ n)
+    (hqy : postY ≤ m) (hqx : postX ≤ n) (G1 G2 Eo Ei : Model.C06.Mat C) (c : C) (y : Model.C06.Mat C) (i j : Nat) (hi : i < m) (hj : j < n) :
+    (Model.C06.resampleBackT conj m n M N preY preX postY postX G1 G2 Eo Ei c y).fn i j
+      = Model.C06.resampleBack conj m n M N preY preX postY postX G1 G2 Eo Ei c y i j := by
+  have hr : ∀ (s k q : Nat), s ≤ k → q < k → Model.C06.rollIdx k s q < k := fun s k q hs hq => rollIdx_lt k s q hs hq
+  simp only [Model.C06.resampleBackT, Model.C06.resampleBack, Model.C06.idft2, Model.C06.dftBack]
+  rw [Tab.fn_ofFn m n _ i j hi hj]
+  congr 1
+  simp only [Model.C06.roll2]
+  rw [Tab.fn_ofFn m n _ _ _ (hr _ _ _ hqy hi) (hr _ _ _ hqx hj)]
+  simp only [Model.C06.matmul]
+  refine sumTo_congr _ _ _ fun a ha => ?_
+  congr 1
+  rw [Tab.fn_ofFn m n _ _ _ ha (hr _ _ _ hqx hj)]
+  refine sumTo_congr _ _ _ fun b hb => ?_
+  congr 1
+  rw [Tab.fn_ofFn m n _ _ _ ha hb]
+  simp only [Model.C06.roll2]
+  rw [Tab.fn_ofFn m n _ _ _ (hr _ _ _ hpy ha) (hr _ _ _ hpx hb)]
+  simp only [Model.C06.matmul]
+  refine sumTo_congr _ _ _ fun d hd => ?_
+  congr 1
+  rw [Tab.fn_ofFn M n _ _ _ hd (hr _ _ _ hpx hb)]
+  rfl
+
+/-- masking, the linear part: scattering a gradient into zeros at the kept positions (`g2[mask] = g`) is the adjoint of keeping
+those positions (`x[mask]`), for every array length, every number of kept samples and every position list inside the array -/
+theorem mask_compress_scatter_adjoint {K : Type} [Field K] (cnt n : Nat) (idx : Nat → Nat) (hidx : ∀ k, k < cnt → idx k < n)
+    (g δ : Nat → K) :
+    ∑ k ∈ range cnt, g k * Model.C06.compress idx δ k = ∑ i ∈ range n, Model.C06.scatterMask cnt idx g i * δ i :=
+  compress_scatter_adjoint' cnt n idx hidx g δ
+
+/-- masked cost functions, for ALL masks: if `grad` is the gradient of `cost` on the kept samples (directional derivative along
+every direction), then `scatter(grad(x[mask]))` is the gradient of `x ↦ cost(x[mask])` on the whole array -- the compress / scatter
+shape that `gen_masked_costs` recognises in the masked branches of the three cost functions -/
+theorem masked_cost_grad (cnt n : Nat) (idx : Nat → Nat) (hidx : ∀ k, k < cnt → idx k < n)
+    (cost : (Nat → ℝ) → ℝ) (grad : (Nat → ℝ) → Nat → ℝ)
+    (h : ∀ x δ : Nat → ℝ, HasDerivAt (fun t : ℝ => cost (fun k => x k + t * δ k)) (∑ k ∈ range cnt, grad x k * δ k) 0)
+    (X Δ : Nat → ℝ) :
+    HasDerivAt (fun t : ℝ => cost (Model.C06.compress idx (fun i => X i + t * Δ i)))
+      (∑ i ∈ range n, Model.C06.scatterMask cnt idx (grad (Model.C06.compress idx X)) i * Δ i) 0 := by
+  rw [← mask_compress_scatter_adjoint cnt n idx hidx]
+  exact h (Model.C06.compress idx X) (Model.C06.compress idx Δ)
+
+/-- masked `mean_square_error`: the returned (scattered) gradient is the derivative of the returned (masked) cost, every mask -/
+theorem mse_masked_grad (cnt n : Nat) (idx : Nat → Nat) (hidx : ∀ k, k < cnt → idx k < n) (M D δ : Nat → ℝ) :
+    HasDerivAt (fun t : ℝ => mseCost cnt (Model.C06.compress idx (fun i => M i + t * δ i)) (Model.C06.compress idx D))
+      (∑ i ∈ range n, Model.C06.scatterMask cnt idx (mseGrad cnt (Model.C06.compress idx M) (Model.C06.compress idx D)) i * δ i) 0 :=
+  masked_cost_grad cnt n idx hidx (fun x => mseCost cnt x (Model.C06.compress idx D))
+    (fun x => mseGrad cnt x (Model.C06.compress idx D)) (fun x d => mse_hasDerivAt cnt x _ d) M δ
+
+/-- masked `bias_and_gain_invariant_error` (at least one kept sample, kept model data not constant) -/
+theorem bgie_masked_grad (cnt n : Nat) (hcnt : 0 < cnt) (idx : Nat → Nat) (hidx : ∀ k, k < cnt → idx k < n) (I D δ : Nat → ℝ)
+    (hden : bgieDen cnt (Model.C06.compress idx I) ≠ 0) :
+    HasDerivAt (fun t : ℝ => bgieCost cnt (Model.C06.compress idx (fun i => I i + t * δ i)) (Model.C06.compress idx D))
+      (∑ i ∈ range n, Model.C06.scatterMask cnt idx (bgieGrad cnt (Model.C06.compress idx I) (Model.C06.compress idx D)) i * δ i) 0 := by
+  rw [← mask_compress_scatter_adjoint cnt n idx hidx]
+  exact bgie_grad cnt hcnt (Model.C06.compress idx I) (Model.C06.compress idx D) (Model.C06.compress idx δ) hden
+
+/-- masked `negative_loglikelihood` (kept predictions away from 0 and 1) -/
+theorem nll_masked_grad (cnt n : Nat) (idx : Nat → Nat) (hidx : ∀ k, k < cnt → idx k < n) (y yhat δ : Nat → ℝ)
+    (hy : ∀ k ∈ range cnt, y (idx k) ≠ 0 ∧ 1 - y (idx k) ≠ 0) :
+    HasDerivAt (fun t : ℝ => nllCost Real.log cnt (Model.C06.compress idx (fun i => y i + t * δ i)) (Model.C06.compress idx yhat))
+      (∑ i ∈ range n, Model.C06.scatterMask cnt idx (nllGrad Real.log cnt (Model.C06.compress idx y) (Model.C06.compress idx yhat)) i * δ i) 0 := by
+  rw [← mask_compress_scatter_adjoint cnt n idx hidx]
+  exact nll_grad cnt (Model.C06.compress idx y) (Model.C06.compress idx yhat) (Model.C06.compress idx δ) hy
+
+
 /-! ## non-vacuity: the hypotheses are met by the intended instances -/
 
 /-- `ℂ` with complex conjugation is an instance of `(C, conj)` -/
@@ -687,5 +818,31 @@ example : Model.C06.diffBack 5 (fun i => ((i + 1 : Nat) : ℚ)) 1 = -2 ∧ Model
 /-- the stationarity hypotheses of the bias/gain theorems are satisfiable: `I = (0, 1)` has non-zero spread -/
 example : bgieDen 2 (fun i => (i : ℝ)) ≠ 0 := by
   simp [bgieDen, Finset.sum_range_succ]; norm_num
+
+/-- `fourier_resample_adjoint`: its hypotheses are met over `ℚ` (identity conjugation) by a 2 × 2 input (`sqrt(2·2) = 2`), any
+"FFT" matrices with the inverse `(1/size)·Fᵀ`, any bases and zooms -/
+example (F1 F2 Eo Ei f y : Model.C06.Mat ℚ) (zy zx : ℚ) (M N : Nat) :
+    Model.C06.ip2 (RingHom.id ℚ) M N y
+        (Model.C06.resampleFwd 2 2 M N (resampleFwdPre 2) (resampleFwdPre 2) (resampleFwdPost 2) (resampleFwdPost 2)
+          F1 F2 Eo Ei (resampleFwdScale (fun _ => 2) zy zx ((2 : Nat) : ℚ) (2 : Nat) M N) f)
+      = Model.C06.ip2 (RingHom.id ℚ) 2 2
+        (Model.C06.resampleBack (RingHom.id ℚ) 2 2 M N (resampleBackPre 2) (resampleBackPre 2) (resampleBackPost 2) (resampleBackPost 2)
+          (fun i j => (1 / ((2 : Nat) : ℚ)) * F1 j i) (fun i j => (1 / ((2 : Nat) : ℚ)) * F2 j i) Eo Ei
+          (resampleBackScale (fun _ => 2) zy zx ((2 : Nat) : ℚ) (2 : Nat) M N) y) f :=
+  fourier_resample_adjoint (RingHom.id ℚ) (fun _ => rfl) 2 2 M N (by norm_num) (by norm_num) F1 F2 _ _ Eo Ei
+    (fun _ _ => rfl) (fun _ _ => rfl) (fun _ => 2) zy zx rfl rfl (by norm_num) rfl f y
+
+/-- the mask theorems: a mask keeping positions 1 and 3 of a length-4 array satisfies the position hypothesis, and the scatter puts
+the two gradients there (zeros elsewhere) -/
+example : (∀ k, k < 2 → (fun k => 2 * k + 1) k < 4)
+    ∧ (List.range 4).map (Model.C06.scatterMask 2 (fun k => 2 * k + 1) (fun k => ((k + 5 : Nat) : ℚ))) = [0, 5, 0, 6] := by
+  constructor
+  · intro k hk; simp only; omega
+  · simp [Model.C06.scatterMask, Num.sumTo, List.range, List.range.loop]
+    norm_num
+
+/-- `fftshift` and `ifftshift` of a length-5 axis as `rollIdx` (source indices): `[3,4,0,1,2]` and `[2,3,4,0,1]` -/
+example : (List.range 5).map (Model.C06.rollIdx 5 (resampleFwdPost 5)) = [3, 4, 0, 1, 2]
+    ∧ (List.range 5).map (Model.C06.rollIdx 5 (resampleFwdPre 5)) = [2, 3, 4, 0, 1] := by decide
 
 end C06
